@@ -1225,3 +1225,26 @@ def cond_holds(conds, test_text, value=True, contains=False):
                     ct2.replace(" ", ""):
                 return True
     return False
+
+
+def guards_of(node, upto):
+    """The conditions under which ``node`` is executed inside ``upto``:
+    [(test node or ExceptHandler, taken-branch truth)] from outermost to
+    innermost -- ancestor if/while tests, conditional expressions, except
+    handlers; a conditional expression in the iterable that feeds an
+    enclosing for loop counts as a guard as well."""
+    out = []
+    prev, a = node, getattr(node, "_parent", None)
+    while a is not None and a is not upto:
+        if isinstance(a, (ast.If, ast.While)) and prev is not a.test:
+            out.append((a.test, prev in a.body))
+        elif isinstance(a, ast.IfExp) and prev is not a.test:
+            out.append((a.test, prev is a.body))
+        elif isinstance(a, ast.ExceptHandler):
+            out.append((a, True))
+        elif isinstance(a, ast.For) and prev is not a.iter:
+            for x in ast.walk(a.iter):
+                if isinstance(x, ast.IfExp):
+                    out.append((x.test, True))
+        prev, a = a, getattr(a, "_parent", None)
+    return list(reversed(out))
